@@ -136,7 +136,8 @@ pub fn run(ctx: &Ctx) -> Outcome {
          chunks, or whose range touches a chunk end point or an hour boundary exactly; distinct by hash of (history prefix, range)",
     );
     out.assume("object_store::memory::InMemory implements conditional PUT correctly");
-    let rt = tokio::runtime::Builder::new_current_thread().enable_all().build().unwrap();
+    // (virtual time: the catalog client backs off between the attempts of a lost race; nothing here is timed)
+    let rt = tokio::runtime::Builder::new_current_thread().enable_all().start_paused(true).build().unwrap();
     let histories: u64 = if ctx.thorough { 14 * 40_000 } else { 12_000 };
     rt.block_on(async {
         for idx in ctx.my_cases(histories) {
